@@ -7,7 +7,7 @@ import json, os, subprocess, sys, tempfile, shutil
 seed, mod, dest, pat = sys.argv[1:5]
 extra = sys.argv[5:]
 env = dict(os.environ, GOFLAGS="-mod=mod", GOPROXY="off", GOWORK="off")
-wt = tempfile.mkdtemp(prefix="seedwt-", dir="/tmp"); os.rmdir(wt)
+wt = tempfile.mkdtemp(prefix="seedwt-", dir="/var/tmp"); os.rmdir(wt)
 wsenv = {k: v for k, v in os.environ.items() if k not in ("GOFLAGS", "GOWORK")}
 wsenv["GOPROXY"] = "off"
 def sh(cmd, cwd=None, t=1500, e=None):
